@@ -299,6 +299,11 @@ func init() {
 // parallel op: free-running goroutines (no scheduler) hammering Match*, Skip* and one shared Config.
 // Meant for a -race build: the race detector makes the binary fail; the op itself reports lost or
 // torn entries.
+type vParDoc struct {
+	ID      int    `json:"id"`
+	Payload string `json:"payload"`
+}
+
 func init() {
 	vExtraOps["parallel"] = func(r *vRunner, o vOp) {
 		rounds := o.Count
@@ -333,6 +338,8 @@ func init() {
 						Skip(&vT{name: fmt.Sprintf("TestSkipped%d", g)})
 					}
 					MatchStandaloneSnapshot(t, "standalone")
+					// Go VALUES of equal encoded size from many goroutines: each stored document is its own value
+					shared.MatchStandaloneJSON(t, vParDoc{ID: g, Payload: strings.Repeat(string(rune('a'+g)), 2048)})
 				}()
 			}
 			wg.Wait()
@@ -342,8 +349,14 @@ func init() {
 				}
 			}
 			ev := vEvents()
-			if ev[0]+ev[1]+ev[2]+ev[3] != ng*6 {
+			if ev[0]+ev[1]+ev[2]+ev[3] != ng*7 {
 				bad++
+			}
+			for g := 0; g < ng; g++ {
+				b, err := os.ReadFile(filepath.Join(defdir, fmt.Sprintf("TestPar%d_2.snap.json", g)))
+				if err != nil || !strings.Contains(string(b), fmt.Sprintf("\"id\": %d,", g)) || !strings.Contains(string(b), strings.Repeat(string(rune('a'+g)), 2048)) {
+					bad++
+				}
 			}
 			// every goroutine's YAML entry holds exactly its own masked document
 			if b, err := os.ReadFile(filepath.Join(defdir, "zz_verif_sched_test.snap")); err == nil {
